@@ -340,6 +340,7 @@ def _rest(report, p, pr, info, reach, loader, c30, listers):
     r5.instance(F, i, "digest lines per entry iteration")
     r5.check(bool(n_lines) and all(k == 1 for k in n_lines), F, i, f"an entry iteration of the per-file listing prints {sorted(set(n_lines))} digest line(s) with verbose off; exactly one is required", construct="digest lines per entry")
 
+    include_rules(report, p, 'c03', ['R3.17'], 'info must fail with the no-history code (30): a local that shadows the `errors` module turns the raise into UnboundLocalError (exit 1)')
     include_rules(report, p, 'c03', ['R3.16'], 'info must print every record: a sort that raises ends the listing')
     include_rules(report, p, 'c10', ['R10.8'], 'info prints what the readers loaded: a reader that stops early (a fast path that skips the <hashes> section, a break on some tag) makes info -sf print fewer digests than the manifests hold')
     include_rules(report, p, 'c06', ['R6.3'], 'the loader recognises every manifest name the tool generates, for every folder name: a generation that is silently passed over makes the history look shorter or empty' + ' - info lists fewer generations or exits 30')
